@@ -34,12 +34,21 @@ Go sources modelled (statement order mirrored):
   data, `verifyTx`).
 * attest_update_valset.go, attest_submit_logic_call.go, attest_upload_smart_contract.go,
   attest_compass_handover.go, attest_upload_user_smart_contract.go — what happens after a
-  successful verification (`applySuccess`).
+  successful verification (`applySuccess`), on EXECUTABLE keeper state (`Chain`):
+  x/valset/keeper `SetSnapshotOnChain` (`snapshot.Chains = append(…)`: `Chain.liveOn`, one entry per
+  listing, no de-duplication — `markLive`), `GetLatestSnapshotOnChain` (walk down from the last
+  snapshot id, a missing snapshot ends the walk: `latestOnChain` / `Chain.hasSnapshot`),
+  x/evm/keeper `SetUserSmartContractDeploymentActive` (`Chain.userActive`, `markUserActive`),
+  `updateSmartContractDeployment` / `SetSmartContractAsActive` (`Chain.deployments`,
+  `Chain.activeContract`).
 
 Abstracted: the retry logic of error proofs (only "message removed, no
 success effect" is kept), metrics events, the content of the handover message that a compass
-upload schedules (only the fact), ABI parsing of the stored compass ABI (assumed to be the
-compass ABI).  Core Lean only.
+upload schedules (only the fact: `Effect.handoverScheduled`, the one effect tag with no executable
+counterpart — the handover message itself is not put into the model's queue), ABI parsing of the
+stored compass ABI (assumed to be the compass ABI), the deployed address stored with a compass /
+user deployment, the `(chain, block height)` key of a user deployment inside its contract (one
+deployment per user contract on this chain), one chain.  Core Lean only.
 -/
 import PalomaModel.Model.SignBytes
 import PalomaModel.Model.Libcons
@@ -201,22 +210,47 @@ deriving Repr, DecidableEq, Inhabited
 def Effect.msg : Effect → Nat
   | .snapshotLive m _ | .deploymentRecorded m _ | .activated m _ | .handoverScheduled m _ | .userActive m _ => m
 
-/-- keeper state outside the queue that the action attesters read -/
+/-- keeper state outside the queue that the action attesters read AND write.  Everything the
+    success effects of the property touch is an executable field here:
+    * "validator snapshot marked live on the chain" = `liveOn` (one entry per listing of this chain in
+      a snapshot's `Chains`, `SetSnapshotOnChain` APPENDS and never de-duplicates),
+    * "new bridge contract recorded or activated" = `deployments` (status) and `activeContract`,
+    * "user contract deployment recorded" = `userActive` (deployment status `ACTIVE`). -/
 structure Chain where
   deployments : List (Nat × DepStatus) := []   -- compass deployments on this chain, by contract id
   activeContract : Nat := 0                    -- `ChainInfo.ActiveSmartContractID`
-  hasSnapshot : Bool := false                  -- `GetLatestSnapshotOnChain` finds one
+  liveOn : List Nat := []                      -- snapshot ids whose `Chains` lists this chain (with multiplicity)
   snapshots : List Nat := []                   -- ids of existing snapshots
-  currentSnapshot : Nat := 0                   -- `GetCurrentSnapshot().Id`
+  currentSnapshot : Nat := 0                   -- `GetCurrentSnapshot().Id` = the last snapshot id handed out
   userDeployments : List Nat := []             -- user contract ids with a deployment on this chain
+  userActive : List Nat := []                  -- … whose deployment on this chain has status `ACTIVE`
   handoverOk : Bool := true                    -- `scheduleCompassHandover` can pick a relayer
 deriving Repr, DecidableEq, Inhabited
+
+/-- `GetLatestSnapshotOnChain`: walk down from the last snapshot id; a missing snapshot ends the walk
+    with `ErrNotFound` (so does reaching id 0); the first snapshot that lists the chain is returned. -/
+def latestOnChain (c : Chain) : Nat → Option Nat
+  | 0 => none
+  | id + 1 =>
+    if !(c.snapshots.contains (id + 1)) then none
+    else if c.liveOn.contains (id + 1) then some (id + 1)
+    else latestOnChain c id
+
+/-- `GetLatestSnapshotOnChain` finds a snapshot -/
+def Chain.hasSnapshot (c : Chain) : Bool := (latestOnChain c c.currentSnapshot).isSome
+
+/-- `SetSnapshotOnChain` on an existing snapshot: `snapshot.Chains = append(snapshot.Chains, chain)` -/
+def markLive (c : Chain) (v : Nat) : Chain := { c with liveOn := c.liveOn ++ [v] }
+
+/-- `SetUserSmartContractDeploymentActive`: `Deployments[i].Status = ACTIVE` -/
+def markUserActive (c : Chain) (cid : Nat) : Chain :=
+  { c with userActive := if c.userActive.contains cid then c.userActive else cid :: c.userActive }
 
 structure St where
   queue : List QMsg := []
   processed : List Nat := []          -- store `tx-processed`
   chain : Chain := {}
-  effects : List Effect := []         -- ghost log, newest first
+  effects : List Effect := []         -- ghost log, newest first (tied to `chain` by Props/C07 §4b)
   accepted : List (Nat × Nat) := []   -- ghost log of (message id, tx hash), newest first
   nextId : Nat := 0                   -- the consensus id counter (C05)
 deriving Repr, Inhabited
@@ -270,13 +304,13 @@ def applySuccess (c : Chain) (m : QMsg) (p : TxProof) : Option (Chain × List Ef
   | .uv _ vid =>
     -- `SetSnapshotOnChain` errors are logged and ignored
     if c.snapshots.contains vid then
-      some ({ c with hasSnapshot := true }, [.snapshotLive m.id vid])
+      some (markLive c vid, [.snapshotLive m.id vid])
     else some (c, [])
   | .slc _ => some (c, [])
   | .usc _ cid =>
     if !p.deployLog then none
     else if !(c.userDeployments.contains cid) then none
-    else some (c, [.userActive m.id cid])
+    else some (markUserActive c cid, [.userActive m.id cid])
   | .ch _ cid =>
     match setActive c cid with
     | none => none
@@ -288,7 +322,7 @@ def applySuccess (c : Chain) (m : QMsg) (p : TxProof) : Option (Chain × List Ef
         -- first deployment on this chain: current snapshot goes live, contract becomes active
         if !(c.snapshots.contains c.currentSnapshot) then none
         else
-          match setActive { setDep c cid .waiting with hasSnapshot := true } cid with
+          match setActive (markLive (setDep c cid .waiting) c.currentSnapshot) cid with
           | none => none
           | some c2 =>
             some (c2, [.activated m.id cid, .snapshotLive m.id c.currentSnapshot, .deploymentRecorded m.id cid])
